@@ -35,12 +35,16 @@ def judge(p):
     r = call(f, m0, m1, t0, t1, latr, lonr)
     if r[0] != "ok":
         return "surface:raises:%s" % r[1]
-    rlat, rlon, tlat, tlon, cls = exp
+    rlat, rlon, tlat, tlon, cls = exp[:5]
     if r[1] is None:
         return "surface:None_in_same_NL_band:%s" % cls
     try:
         lat, lon = r[1]
         dlat, dlon = abs(lat - rlat), C.lon_diff(lon, rlon)
+        if len(exp) > 5 and (dlat > tlat + 1e-9 or dlon > tlon + 1e-9):
+            # equal timestamps, same position: the other frame's carried position is just as good
+            dlat, dlon = abs(lat - exp[5][0]), C.lon_diff(lon, exp[5][1])
+            tlat, tlon = exp[5][2], exp[5][3]
     except Exception:
         return "surface:bad_shape"
     if dlat > tlat + 1e-9:
@@ -98,11 +102,16 @@ def w_lats(arg):
                         acc.c["receiver_outside_premise"] += 1
                         continue
                     lonr = S.wrap180(lonr)
-                    for newer_even in (True, False):
+                    for newer_even in ((True, False, None) if disp == (0, 0) else (True, False)):
                         e = e0 if newer_even else e1
                         t0, t1 = (5, 4) if newer_even else (4, 5)
                         exp = [float(e["rlat"]), float(e["rlon"]), float(e["dlat"]) / 131072, float(e["dlon"]) / 131072,
                                cls_of(e["rlat"], S.wrap180(e["rlon"]), latr, lonr)]
+                        if newer_even is None:
+                            # same position, same timestamp: either frame's carried position is acceptable
+                            t0 = t1 = 7
+                            exp[4] += "+equal_timestamps"
+                            exp.append([float(e0["rlat"]), float(e0["rlon"]), float(e0["dlat"]) / 131072, float(e0["dlon"]) / 131072])
                         args = (m0, m1, t0, t1)   # documented order: even first (C05 does not quantify over argument order)
                         fn = "position" if k % 2 else "surface_position"
                         acc.n += 1
